@@ -167,6 +167,23 @@ def H(c):
                                       z3.Length(c.new('_inpbuf')) <= z3.Length(c.old('_inpbuf'))))
 
 
+def pump_inv(c, new=True):
+    """class invariant K of the receive pump = what the three handlers require of the state they run in
+    (block size from the cipher table, >= 8; while _recv_packet is armed the header block and a uint32 length are held)"""
+    f, fv = (c.new, c.newv) if new else (c.old, c.oldv)
+    return pump_inv_z(fv('_recv_handler'), f('_recv_blocksize'), f('_recv_macsize'), f('_recv_seq'), f('_packet'),
+                      f('_pktlen'), f('_banner_lines'))
+
+
+def is_handler(hv, tid):
+    return z3.BoolVal(tag_id(hv.tag) == tid) if isinstance(hv, VTag) else hv.z == tid
+
+
+def pump_inv_z(hv, bs, mac, seq, pkt, pktlen, banner):
+    return z3.And(bs >= 8, mac >= 0, seq >= 0, seq < 2 ** 32, banner >= 0,
+                  z3.Implies(is_handler(hv, T_PACKET), z3.And(z3.Length(pkt) == bs, pktlen >= 0, pktlen < 2 ** 32)))
+
+
 def running(tid):
     """the handler under contract is the one installed in _recv_handler (it is only ever called through it)"""
     return lambda c: c.eq(c.oldv('_recv_handler'), VTag('method:SSHConnection.' + tid))
@@ -229,8 +246,8 @@ recv_version = Spec(
     PROP, 'connection', 'SSHConnection._recv_version', self_class='SSHConnection', classes=RCLASSES,
     stubs=dict(ROLE_STUBS, **{'self._force_close': force_close_stub, 'self._send_kexinit': send_kexinit_stub,
                               'self.set_extra_info': noop()}),
-    requires=lambda c: z3.And(running('_recv_version')(c),
-                              c.old('_banner_lines') >= 0, c.old('_banner_lines') <= MAX_BANNER_LINES),
+    # (the state "limit exceeded, closed, more data arrives before _cleanup runs" is included: no upper bound here)
+    requires=lambda c: z3.And(running('_recv_version')(c), pump_inv(c, new=False)),
     returns='bool',
     ensures=[
         ('handler-progress', H),
@@ -241,11 +258,15 @@ recv_version = Spec(
          lambda c: z3.Implies(z3.And(z3.Not(c.result), z3.Not(closed(c))),
                               z3.And(c.new('_inpbuf') == c.old('_inpbuf'),
                                      z3.Length(c.old('_inpbuf')) < MAX_BANNER_LINE_LEN))),
+        ('pump-invariant', pump_inv),
         ('banner-lines-bounded',
          lambda c: z3.And(c.new('_banner_lines') >= c.old('_banner_lines'),
-                          z3.Or(c.new('_banner_lines') <= MAX_BANNER_LINES, closed(c)))),
+                          z3.Or(c.new('_banner_lines') <= MAX_BANNER_LINES, closed(c),
+                                c.new('_banner_lines') == c.old('_banner_lines')))),
         ('too-many-banner-lines-stop-the-pump',
-         lambda c: z3.Implies(c.new('_banner_lines') > MAX_BANNER_LINES, z3.And(closed(c), z3.Not(c.result)))),
+         lambda c: z3.Implies(z3.And(c.new('_banner_lines') > MAX_BANNER_LINES,
+                                     c.new('_banner_lines') > c.old('_banner_lines')),
+                              z3.And(closed(c), z3.Not(c.result)))),
         ('accepted-version-within-255-or-closed',
          lambda c: z3.BoolVal(True) if len(c.events('send_kexinit')) == 0 else
          z3.Or(closed(c), z3.If(c.old('_is_client'), z3.Length(c.new('_server_version')),
@@ -269,9 +290,9 @@ recv_pkthdr = Spec(
     PROP, 'connection', 'SSHConnection._recv_pkthdr', self_class='SSHConnection', classes=RCLASSES,
     stubs={'self._recv_encryption.decrypt_header': decrypt_header_stub},
     # block sizes come from the cipher table: max(8, cipher block size) (send_newkeys / _recv_newkeys)
-    requires=lambda c: z3.And(running('_recv_pkthdr')(c), c.old('_recv_blocksize') >= 8),
+    requires=lambda c: z3.And(running('_recv_pkthdr')(c), pump_inv(c, new=False)),
     returns='bool',
-    ensures=[('handler-progress', H),
+    ensures=[('handler-progress', H), ('pump-invariant', pump_inv),
              ('next-is-recv-packet', lambda c: z3.Implies(c.result, c.eq(c.newv('_recv_handler'),
                                                                         VTag('method:SSHConnection._recv_packet')))),
              # (3) the peer-chosen packet length is any uint32: nothing else is derived from it here
@@ -290,11 +311,16 @@ def process_packet_stub(cx):
     touch the input buffer or the receive handler (grep: only the writers listed above)"""
     r = cx.fresh('any', 'handler_result')
     ev = ('process_packet', (cx.recv,) + tuple(cx.args))
-    return [Out(ret=r, event=ev), Out(exc=VExc('PacketDecodeError'), event=ev),
-            Out(exc=VExc('DisconnectError'), event=ev)]
+
+    def tr():       # a handler may close the connection (_process_disconnect -> _force_close): _transport is havocked
+        return {'_transport': cx.fresh('opt[obj:Transport]', 'transport_after_handler')}
+    # handlers that are not under contract may raise anything: _recv_packet lets it through to _recv_data, whose
+    # `except Exception` closes the connection (the `always` clauses of _recv_packet are checked on that path too)
+    return [Out(ret=r, sets=tr(), event=ev), Out(exc=VExc('PacketDecodeError'), sets=tr(), event=ev),
+            Out(exc=VExc('DisconnectError'), sets=tr(), event=ev), Out(exc=VExc('Exception'), sets=tr(), event=ev)]
 
 
-process_packet_stub.modifies = ()
+process_packet_stub.modifies = ('_transport',)
 
 def is_async(c):
     """keyword parameter with default False (call sites inside _recv_packet do not pass it)"""
@@ -313,10 +339,16 @@ finish_recv_packet = Spec(
     ensures=[('handler-rearmed-or-pump-ran', lambda c: z3.Or(
         is_async(c), c.eq(c.newv('_recv_handler'), VTag('method:SSHConnection._recv_pkthdr')))),
     ],
+    requires=lambda c: z3.And(c.arg('seq') >= 0, c.arg('seq') < 2 ** 32, c.old('_recv_seq') >= 0,
+                              c.old('_recv_seq') < 2 ** 32),
     always=[('buffer-untouched-when-synchronous', lambda c: z3.Or(is_async(c),
-                                                                  c.new('_inpbuf') == c.old('_inpbuf')))],
-    # also reachable as a task done-callback (is_async=True): see finding "rollover in done-callback" in the notes
-    raises={'ProtocolError': lambda c: z3.And(c.old('_recv_seq') == 0xffffffff,
+                                                                  c.new('_inpbuf') == c.old('_inpbuf'))),
+            ('seq-stays-uint32', lambda c: z3.Or(is_async(c), z3.And(c.new('_recv_seq') >= 0,
+                                                                     c.new('_recv_seq') < 2 ** 32)))],
+    # called synchronously from _recv_packet the rollover error is funnelled by _recv_data; as a task done-callback
+    # (is_async=True, functools.partial in _recv_packet) NOTHING catches it: it would reach the loop's exception
+    # handler with the connection left open - so it may only be raised on the synchronous call
+    raises={'ProtocolError': lambda c: z3.And(z3.Not(is_async(c)), c.old('_recv_seq') == 0xffffffff,
                                               c.is_none(c.oldv('_recv_encryption')))})
 
 recv_packet = Spec(
@@ -334,17 +366,15 @@ recv_packet = Spec(
         'self._finish_recv_packet': contract_stub(lambda: finish_recv_packet),
     },
     # (3) _pktlen is ANY uint32 the peer chose (0, 1, 2^32-1 included); mac / block sizes from the cipher table
-    requires=lambda c: z3.And(running('_recv_packet')(c),
-                              c.old('_pktlen') >= 0, c.old('_pktlen') < 2 ** 32,
-                              c.old('_recv_macsize') >= 0, c.old('_recv_blocksize') >= 8,
-                              c.old('_recv_seq') >= 0, c.old('_recv_seq') < 2 ** 32,
-                              z3.Length(c.old('_packet')) == c.old('_recv_blocksize')),
+    requires=lambda c: z3.And(running('_recv_packet')(c), pump_inv(c, new=False)),
     returns='bool',
-    ensures=[('handler-progress', H),
+    ensures=[('handler-progress', H), ('pump-invariant', pump_inv),
              ('one-reply-at-most', lambda c: z3.BoolVal(len(c.calls('send_packet')) <= 1))],
     always=[('buffer-never-grows', lambda c: z3.Length(c.new('_inpbuf')) <= z3.Length(c.old('_inpbuf'))),
             ('one-handler-at-most', lambda c: z3.BoolVal(len(c.events('process_packet')) <= 1))],
-    raises={'DisconnectError': True, 'PacketDecodeError': True})
+    raises={'DisconnectError': True, 'PacketDecodeError': True,
+            # only from a message handler that is not under contract (never raised by _recv_packet itself)
+            'Exception': lambda c: z3.BoolVal(len(c.events('process_packet')) == 1)})
 recv_packet.no_replay = True
 recv_packet.feasible_timeout_ms = 300
 
@@ -354,21 +384,32 @@ def recv_handler_stub(cx):
     """the indirect call self._recv_handler(): exactly the handler contract H proved for _recv_version,
     _recv_pkthdr, _recv_packet ('lambda: False' satisfies it trivially); handlers may raise any Exception"""
     st = cx.st
+    g = cx.selff
+    cx.require('handler-preconditions(pump-invariant)',
+               pump_inv_z(g('_recv_handler'), g('_recv_blocksize').z, g('_recv_macsize').z, g('_recv_seq').z,
+                          g('_packet').z, g('_pktlen').z, g('_banner_lines').z))
     r = cx.fresh('bool', 'handler_result')
     buf = cx.fresh('bytes', 'inpbuf_after')
     h = cx.fresh('tag', 'handler_after')
     tr = cx.fresh('opt[obj:Transport]', 'transport_after')
+    kf = {f: cx.fresh(t, f + '_after') for f, t in (('_recv_blocksize', 'int'), ('_recv_macsize', 'int'),
+                                                     ('_recv_seq', 'int'), ('_packet', 'bytes'), ('_pktlen', 'int'),
+                                                     ('_banner_lines', 'int'))}
+    k_after = pump_inv_z(h, kf['_recv_blocksize'].z, kf['_recv_macsize'].z, kf['_recv_seq'].z, kf['_packet'].z,
+                         kf['_pktlen'].z, kf['_banner_lines'].z)
     old_buf, old_h = cx.selff('_inpbuf'), cx.selff('_recv_handler')
     prog = z3.Implies(r.z, z3.And(
         2 * z3.Length(buf.z) + rank_z(h) < 2 * z3.Length(old_buf.z) + rank_z(old_h),
         z3.Length(buf.z) <= z3.Length(old_buf.z)))
-    sets = {'_inpbuf': buf, '_recv_handler': h, '_transport': tr}
-    return [Out(ret=r, sets=sets, assume=[prog], event=('handler', ())),
+    sets = dict({'_inpbuf': buf, '_recv_handler': h, '_transport': tr}, **kf)
+    # K after a normal return (proved as `pump-invariant` on each handler); after an exception the loop is left
+    return [Out(ret=r, sets=sets, assume=[prog, k_after], event=('handler', ())),
             Out(exc=VExc('DisconnectError'), sets=dict(sets), event=('handler', ())),
             Out(exc=VExc('Exception'), sets=dict(sets), event=('handler', ()))]
 
 
-recv_handler_stub.modifies = ('_inpbuf', '_recv_handler', '_transport')
+recv_handler_stub.modifies = ('_inpbuf', '_recv_handler', '_transport', '_recv_blocksize', '_recv_macsize',
+                              '_recv_seq', '_packet', '_pktlen', '_banner_lines')
 
 
 def disconnect_exc(cx, label):
@@ -445,23 +486,36 @@ def named(stub, name):
     return f
 
 
+# called OUTSIDE the try block of _recv_data: must itself raise nothing.  Its two helpers are executed from source;
+# asyncio contracts: TimerHandle.cancel() and loop.call_later(delay >= 0 or any float, cb) do not raise
+KCONN = dict(ICONN, _keepalive_timer='opt[obj:TimerHandle]', _keepalive_interval='int')
+reset_keepalive_timer = Spec(
+    PROP, 'connection', 'SSHConnection._reset_keepalive_timer', self_class='SSHConnection',
+    classes=dict(RCLASSES, SSHConnection=KCONN, Logger={}, TimerHandle={}),
+    inline={'self._cancel_keepalive_timer': ('connection', 'SSHConnection._cancel_keepalive_timer'),
+            'self._set_keepalive_timer': ('connection', 'SSHConnection._set_keepalive_timer')},
+    stubs={'self._keepalive_timer.cancel': noop('cancel'),
+           'self._loop.call_later': ret('obj:TimerHandle', 'handle', event='call_later')},
+    modifies=['_keepalive_timer'],
+    raises={})
+
 recv_data = Spec(
     PROP, 'connection', 'SSHConnection._recv_data', self_class='SSHConnection',
-    classes=dict(RCLASSES, SSHConnection=ICONN, Logger={}),
-    stubs={'self._reset_keepalive_timer': noop(),       # timer bookkeeping (loop.call_later / handle.cancel)
+    classes=dict(RCLASSES, SSHConnection=KCONN, Logger={}, TimerHandle={}),
+    stubs={'self._reset_keepalive_timer': contract_stub(lambda: reset_keepalive_timer),
            'self._recv_handler': recv_handler_stub2,
            'self._send_disconnect': named(contract_stub(lambda: send_disconnect), 'send_disconnect'),
            'self._force_close': force_close_stub,
            'self.internal_error': named(contract_stub(lambda: internal_error), 'internal_error')},
     loops={1: LoopSpec(header='self._inpbuf and self._recv_handler()',
                        modifies=['_inpbuf', '_recv_handler', '_transport'],
-                       invariant=lambda c: z3.BoolVal(True),
+                       invariant=lambda c: pump_inv(c),
                        # (1) every true-returning handler step strictly decreases 2*len(_inpbuf)+rank(handler):
                        # at most 2*len(_inpbuf)+1 iterations per chunk
                        variant=lambda c: measure(c, True))},
-    modifies=['_inpbuf', '_recv_handler', '_transport', '_send_seq'],
-    ensures=[('normal-exit-without-error-leaves-connection-alone',
-              lambda c: z3.BoolVal(True))],
+    modifies=['_inpbuf', '_recv_handler', '_transport', '_send_seq', '_recv_blocksize', '_recv_macsize',
+              '_recv_seq', '_packet', '_pktlen', '_banner_lines'],
+    requires=lambda c: pump_inv(c, new=False),
     always=[('error-means-closed',
              lambda c: z3.BoolVal(True) if not (c.events('send_disconnect') or c.events('internal_error'))
              else z3.And(closed(c) if c.events('send_disconnect') else z3.BoolVal(True),
@@ -871,6 +925,31 @@ def sk_expect(hv, b):
                   [z3.Or([hv.z == tag_id('method:SSHSOCKSForwarder.' + n) for n in SOCKS_EXPECT])])
 
 
+AFTER_COMMAND = ('_recv_socks5_hostlen', '_recv_socks5_host', '_recv_socks5_addr', '_recv_socks5_port')
+
+
+def sk_addrtype(hv, a):
+    """J, second part: in the SOCKS5 states after the command _addrtype is IPv4 (1) or IPv6 (4), the only keys of
+    _socks5_addr_len"""
+    ok = z3.Or(a == 1, a == 4)
+    if hv is VNone:
+        return z3.BoolVal(True)
+    if isinstance(hv, VTag):
+        return ok if hv.tag.rsplit('.', 1)[-1] in AFTER_COMMAND else z3.BoolVal(True)
+    if isinstance(hv, VOpt):
+        return z3.Or(hv.isnone, sk_addrtype(hv.val, a))
+    return z3.Implies(z3.Or([hv.z == tag_id('method:SSHSOCKSForwarder.' + n) for n in AFTER_COMMAND]), ok)
+
+
+def socks_reply_consts():
+    """SOCKS4_OK_RESPONSE / SOCKS5_OK_RESPONSE_HDR are `bytes((...))` of module constants (socks.py 52-53): rebuilt
+    from the constants of the analysed tree"""
+    from pyvc import extract
+    k = extract.get_module('socks').lookup_const
+    return {'SOCKS4_OK_RESPONSE': VBytes(bytes((0, k('SOCKS4_OK'), 0, 0, 0, 0, 0, 0))),
+            'SOCKS5_OK_RESPONSE_HDR': VBytes(bytes((k('SOCKS5'), k('SOCKS5_OK'), 0)))}
+
+
 def socks_handler(name, extra_stubs=None, raises=None):
     """one state of the handshake; the pump delivers exactly _bytes_needed bytes (or a NUL-terminated field)"""
     tag = VTag('method:SSHSOCKSForwarder.' + name)
@@ -878,6 +957,7 @@ def socks_handler(name, extra_stubs=None, raises=None):
     def requires(c):
         b = c.old('_bytes_needed')
         return z3.And(sk_inv(c, new=False), c.eq(c.oldv('_recv_handler'), tag), SOCKS_EXPECT[name](b),
+                      sk_addrtype(c.oldv('_recv_handler'), c.old('_addrtype')),
                       z3.Implies(b >= 0, z3.Length(c.arg('data')) == b))
 
     def progress(c):
@@ -885,7 +965,6 @@ def socks_handler(name, extra_stubs=None, raises=None):
         consumed = z3.Length(c.arg('data')) + z3.If(c.old('_bytes_needed') < 0, 1, 0)
         return z3.Or(consumed >= 1, srank(c.newv('_recv_handler')) < SOCKS_RANK[name])
     stubs = {'super().close': close_stub, 'self._connect': connect_stub, 'self._transport.write': noop('write'),
-             'self._send_socks4_ok': noop('ok4'), 'self._send_socks5_ok': noop('ok5'),
              # ipaddress.ip_address(bytes of length 4 or 16): total on those lengths, ValueError otherwise
              'ip_address': lambda cx: [Out(ret=cx.fresh('any', 'ip'),
                                            assume=[z3.Or(z3.Length(cx.args[0].z) == 4, z3.Length(cx.args[0].z) == 16)]),
@@ -894,10 +973,15 @@ def socks_handler(name, extra_stubs=None, raises=None):
                                                                 z3.Length(cx.args[0].z) == 16))])]}
     stubs.update(extra_stubs or {})
     return Spec(PROP, 'socks', 'SSHSOCKSForwarder.' + name, self_class='SSHSOCKSForwarder', params={'data': 'bytes'},
-                classes=SK, stubs=stubs, requires=requires, inline=dict(SOCKS_CLOSE),
+                classes=SK, stubs=stubs, requires=requires, globals=socks_reply_consts(),
+                # the two reply senders are executed from source (assert on the transport, _socks5_addr_len lookup)
+                inline=dict(SOCKS_CLOSE, **{'self._send_socks4_ok': ('socks', 'SSHSOCKSForwarder._send_socks4_ok'),
+                                            'self._send_socks5_ok': ('socks', 'SSHSOCKSForwarder._send_socks5_ok')}),
                 ensures=[('armed-implies-open', sk_inv), ('progress', progress),
                          ('next-state-gets-the-length-it-expects',
-                          lambda c: sk_expect(c.newv('_recv_handler'), c.new('_bytes_needed')))],
+                          lambda c: sk_expect(c.newv('_recv_handler'), c.new('_bytes_needed'))),
+                         ('address-type-known-after-the-command',
+                          lambda c: sk_addrtype(c.newv('_recv_handler'), c.new('_addrtype')))],
                 # (2) nothing may escape to the event loop: no AssertionError / IndexError / ValueError
                 raises=raises or {})
 
@@ -928,18 +1012,20 @@ def socks_dispatch_stub(cx):
     cx.require('handler-gets-the-length-it-expects',
                z3.And(sk_expect(h0, b0.z), z3.Implies(b0.z >= 0, z3.Length(data.z) == b0.z)))
     cx.require('armed-implies-open', z3.Implies(armed(h0), z3.Not(_isnone(cx.selff('_transport')))))
+    cx.require('address-type-known-after-the-command', sk_addrtype(h0, cx.selff('_addrtype').z))
+    a1 = cx.fresh('int', 'addrtype_after')
     h1 = cx.fresh('opt[tag]', 'handler_after')
     b1 = cx.fresh('int', 'needed_after')
     t1 = cx.fresh('opt[obj:Transport]', 'transport_after')
     consumed = z3.Length(data.z) + z3.If(b0.z < 0, 1, 0)
-    return [Out(sets={'_recv_handler': h1, '_bytes_needed': b1, '_transport': t1},
-                assume=[z3.Implies(armed(h1), z3.Not(t1.isnone)),
+    return [Out(sets={'_recv_handler': h1, '_bytes_needed': b1, '_transport': t1, '_addrtype': a1},
+                assume=[z3.Implies(armed(h1), z3.Not(t1.isnone)), sk_addrtype(h1, a1.z),
                         z3.Or(consumed >= 1, srank(h1) < srank(h0)), srank(h1) <= 6,
                         sk_expect(h1, b1.z)],
                 event=('handler', (data,)))]
 
 
-socks_dispatch_stub.modifies = ('_recv_handler', '_bytes_needed', '_transport')
+socks_dispatch_stub.modifies = ('_recv_handler', '_bytes_needed', '_transport', '_addrtype')
 
 socks_close = Spec(
     PROP, 'socks', 'SSHSOCKSForwarder.close', self_class='SSHSOCKSForwarder', classes=SK,
@@ -954,10 +1040,12 @@ socks_data_received = Spec(
     stubs={'self._recv_handler': socks_dispatch_stub, 'self.close': contract_stub(lambda: socks_close),
            'super().data_received': noop('forward'), 'self._inpbuf.find': weak_find_stub},
     requires=lambda c: z3.And(sk_inv(c, new=False), srank(c.oldv('_recv_handler')) <= 6,
-                              sk_expect(c.oldv('_recv_handler'), c.old('_bytes_needed'))),
+                              sk_expect(c.oldv('_recv_handler'), c.old('_bytes_needed')),
+                              sk_addrtype(c.oldv('_recv_handler'), c.old('_addrtype'))),
     loops={1: LoopSpec(header='self._recv_handler', modifies=['_recv_handler', '_transport'],
                        invariant=lambda c: z3.And(sk_inv(c), srank(c.newv('_recv_handler')) <= 6,
-                                                  sk_expect(c.newv('_recv_handler'), c.new('_bytes_needed'))),
+                                                  sk_expect(c.newv('_recv_handler'), c.new('_bytes_needed')),
+                                                  sk_addrtype(c.newv('_recv_handler'), c.new('_addrtype'))),
                        # (1) lexicographic (unconsumed bytes, handler rank) as one integer
                        variant=lambda c: 8 * z3.Length(c.new('_inpbuf')) + srank(c.newv('_recv_handler')))},
     ensures=[('armed-implies-open', sk_inv)],
@@ -1131,6 +1219,18 @@ def x_inv(c, new=True):
     return z3.And(f('_bytes_needed') >= 0, f('_auth_proto_len') >= 0, f('_auth_data_len') >= 0)
 
 
+def x_expect(hv, b):
+    """class invariant: while _recv_prefix is armed the pump delivers the 12-byte fixed prefix (set in __init__)"""
+    t = tag_id('method:SSHX11ClientForwarder._recv_prefix')
+    if hv is VNone:
+        return z3.BoolVal(True)
+    if isinstance(hv, VTag):
+        return b == 12 if tag_id(hv.tag) == t else z3.BoolVal(True)
+    if isinstance(hv, VOpt):
+        return z3.Or(hv.isnone, x_expect(hv.val, b))
+    return z3.Implies(hv.z == t, b == 12)
+
+
 def x_handler(name, nbytes):
     tag = VTag('method:SSHX11ClientForwarder.' + name)
     return Spec(PROP, 'x11', 'SSHX11ClientForwarder.' + name, self_class='SSHX11ClientForwarder',
@@ -1143,7 +1243,9 @@ def x_handler(name, nbytes):
                 requires=lambda c: z3.And(x_inv(c, new=False), c.eq(c.oldv('_recv_handler'), tag),
                                           z3.Length(c.arg('data')) == nbytes(c)),
                 ensures=[('state-machine-advances', lambda c: xrank(c.newv('_recv_handler')) < X_RANK[name]),
-                         ('lengths-stay-non-negative', x_inv)],
+                         ('lengths-stay-non-negative', x_inv),
+                         ('prefix-state-gets-12-bytes',
+                          lambda c: x_expect(c.newv('_recv_handler'), c.new('_bytes_needed')))],
                 raises={})
 
 
@@ -1154,10 +1256,13 @@ x_specs = [x_handler('_recv_prefix', lambda c: z3.IntVal(12)),
 
 def x_dispatch_stub(cx):
     """self._recv_handler(data): the joint contract of the three handlers above"""
-    h0 = cx.selff('_recv_handler')
+    h0, b0 = cx.selff('_recv_handler'), cx.selff('_bytes_needed')
+    # the handlers' preconditions are obligations at the indirect call
+    cx.require('handler-gets-the-length-it-expects',
+               z3.And(z3.Length(cx.args[0].z) == b0.z, b0.z >= 0, x_expect(h0, b0.z)))
     h1, b1, buf = cx.fresh('opt[tag]', 'handler_after'), cx.fresh('int', 'needed_after'), cx.fresh('bytes', 'buf_after')
     return [Out(sets={'_recv_handler': h1, '_bytes_needed': b1, '_inpbuf': buf},
-                assume=[xrank(h1) < xrank(h0), b1.z >= 0], event=('handler', tuple(cx.args)))]
+                assume=[xrank(h1) < xrank(h0), b1.z >= 0, x_expect(h1, b1.z)], event=('handler', tuple(cx.args)))]
 
 
 x_dispatch_stub.modifies = ('_recv_handler', '_bytes_needed', '_inpbuf')
@@ -1166,9 +1271,11 @@ x_data_received = Spec(
     PROP, 'x11', 'SSHX11ClientForwarder.data_received', self_class='SSHX11ClientForwarder',
     params={'data': 'bytes', 'datatype': 'none'}, classes=XK,
     stubs={'self._recv_handler': x_dispatch_stub, 'super().data_received': noop('forward')},
-    requires=lambda c: z3.And(x_inv(c, new=False), xrank(c.oldv('_recv_handler')) <= 3),
+    requires=lambda c: z3.And(x_inv(c, new=False), xrank(c.oldv('_recv_handler')) <= 3,
+                              x_expect(c.oldv('_recv_handler'), c.old('_bytes_needed'))),
     loops={1: LoopSpec(header='self._recv_handler',
-                       invariant=lambda c: z3.And(c.new('_bytes_needed') >= 0, xrank(c.newv('_recv_handler')) <= 3),
+                       invariant=lambda c: z3.And(c.new('_bytes_needed') >= 0, xrank(c.newv('_recv_handler')) <= 3,
+                                                  x_expect(c.newv('_recv_handler'), c.new('_bytes_needed'))),
                        variant=lambda c: xrank(c.newv('_recv_handler')))},
     ensures=[('at-most-three-handler-steps', lambda c: z3.BoolVal(True))],
     raises={})
@@ -1286,3 +1393,135 @@ def extra_checks(tier, seed):
     except Exception as e:        # harness trouble is never a verdict
         return {'bounded': [{'name': name, 'inputs': 0, 'violations': [], 'error': repr(e)}]}
     return {'bounded': [{'name': name, 'inputs': 24, 'violations': bad}]}
+
+
+# ====================================================================== connection.py: task errors are reaped
+def task_result_stub(cx):
+    """asyncio.Task.result() in a done-callback: the coroutine's return value, or re-raises what it raised"""
+    exc, rng = disconnect_exc(cx, 'task_disc')
+    ev = ('task_result', ())
+    return [Out(ret=cx.fresh('any', 'task_value'), event=ev), Out(exc=VExc('CancelledError'), event=ev),
+            Out(exc=exc, assume=[rng], event=ev), Out(exc=VExc('Exception'), event=ev)]
+
+
+task_result_stub.modifies = ()
+
+reap_task = Spec(
+    PROP, 'connection', 'SSHConnection._reap_task', self_class='SSHConnection',
+    params={'task_logger': 'opt[obj:Logger]', 'task': 'obj:Task'},
+    classes=dict(RCLASSES, SSHConnection=dict(ICONN, _tasks='obj:TaskSet'), Logger={}, TaskSet={}),
+    stubs={'self._tasks.discard': noop(), 'task.result': task_result_stub,
+           'self._send_disconnect': named(contract_stub(lambda: send_disconnect), 'send_disconnect'),
+           'self._force_close': force_close_stub,
+           'self.internal_error': named(contract_stub(lambda: internal_error), 'internal_error')},
+    modifies=['_transport', '_send_seq'],
+    always=[('error-means-closed',
+             lambda c: z3.BoolVal(True) if not (c.events('send_disconnect') or c.events('internal_error'))
+             else z3.And(closed(c) if c.events('send_disconnect') else z3.BoolVal(True),
+                         c.is_none(c.newv('_transport')))),
+            ('every-failure-is-handled', lambda c: z3.BoolVal(
+                c.raised is None and (len(c.events('send_disconnect')) + len(c.events('internal_error')) == 1 or
+                                      not any(x['exc'] is not None and x['exc'].cls != 'CancelledError'
+                                              for x in c.calls('task.result')))))],
+    # (2) a done-callback: NOTHING may escape to the event loop
+    raises={})
+
+
+# ====================================================================== public_key.py: key import error discipline
+# documented: import_private_key -> KeyImportError / KeyEncryptionError, import_public_key / import_certificate ->
+# KeyImportError, for EVERY byte string.  The format decoders reach DER, PEM, OpenSSH and the cryptography backends;
+# whatever ValueError-family error or OverflowError they let through must be converted here.
+def decoder_stub(*extra):
+    def stub(cx):
+        outs = [Out(ret=VTuple([cx.fresh('opt[obj:Key]', 'decoded'), cx.fresh('int', 'end')]))]
+        for cls in ('KeyImportError', 'ValueError', 'UnicodeDecodeError', 'PacketDecodeError', 'ASN1DecodeError',
+                    'OverflowError') + extra:
+            outs.append(Out(exc=VExc(cls)))
+        return outs
+    stub.modifies = ()
+    return stub
+
+
+def import_spec(name, decoder, params, extra=(), raises=('KeyImportError',)):
+    return Spec(PROP, 'public_key', name, params=params, classes={'Key': {}},
+                stubs={decoder: decoder_stub(*extra)}, returns='obj:Key',
+                raises={r: True for r in raises})
+
+
+import_private_key = import_spec('import_private_key', '_decode_private',
+                                 dict(data='bytes', passphrase='any', unsafe_skip_rsa_key_validation='any'),
+                                 extra=('KeyEncryptionError',), raises=('KeyImportError', 'KeyEncryptionError'))
+import_public_key = import_spec('import_public_key', '_decode_public', dict(data='bytes'))
+import_certificate = import_spec('import_certificate', '_decode_certificate', dict(data='bytes'))
+
+
+# ====================================================================== misc.py: match_base64 (PEM footer search)
+# no exception other than ValueError for ANY header bytes: a regular expression may contain untrusted bytes only
+# through re.escape().  re.compile is modelled as raising re.error (class name 'error', NOT a ValueError) unless
+# its pattern is a concatenation of literals and re.escape() results.
+re_escape_fn = z3.Function('re_escape', BytesS, BytesS)
+
+
+def re_escape_stub(cx):
+    return VBytes(re_escape_fn(cx.args[0].z))
+
+
+def _pattern_is_safe(z):
+    k = z.decl().kind() if z3.is_app(z) else None
+    if k == z3.Z3_OP_SEQ_CONCAT:
+        return all(_pattern_is_safe(a) for a in z.children())
+    if k == z3.Z3_OP_SEQ_EMPTY:
+        return True
+    if k == z3.Z3_OP_SEQ_UNIT:
+        return z3.is_int_value(simp(z.arg(0)))
+    return z3.is_app(z) and z.decl().name() == 're_escape'
+
+
+def re_compile_stub(cx):
+    pat = cx.ex.deref(cx.st, cx.args[0])
+    ok = Out(ret=cx.fresh('obj:Pattern', 'compiled'), event=('re_compile', (pat,)))
+    if _pattern_is_safe(pat.z):
+        return [ok]
+    return [ok, Out(exc=VExc('error'), event=('re_compile', (pat,)))]
+
+
+re_compile_stub.modifies = ()
+
+
+def re_search_stub(cx):
+    m = cx.fresh('opt[obj:Match]', 'match')
+    return [Out(ret=m)]
+
+
+re_search_stub.modifies = ()
+
+match_base64 = Spec(
+    PROP, 'misc', 'match_base64', params=dict(data='bytes', start='int', header='bytes'),
+    classes={'Pattern': {}, 'Match': {}},
+    globals={'re': VTag('class:re')},
+    stubs={'re.escape': re_escape_stub, 're.compile': re_compile_stub, 're.compile().search': re_search_stub,
+           'match.start': ret('int', 'match_start'), 'match.end': ret('int', 'match_end')},
+    returns='tuple[bytes,int]',
+    ensures=[('pattern-built-from-literals-and-escaped-pieces-only',
+              lambda c: z3.BoolVal(all(_pattern_is_safe(e[1][0].z) for e in c.events('re_compile'))))],
+    raises={'ValueError': True})
+match_base64.no_replay = True
+
+
+# ====================================================================== channel parameters / send loop (shared)
+# "peer-supplied channel parameters validated at open" and "send loop must make progress" are stated and proved in
+# contracts/c08.py; the same Specs are run under C10 so that a zero maximum packet size accepted again is a C10
+# violation too (clones: same contract, same code, property id C10)
+def _clone_from_c08():
+    import copy
+    from . import c08 as K
+    out = []
+    for sp in (K.channel_open, K.channel_open_conf, K.flush_send_buf):
+        c = copy.copy(sp)
+        c.prop = PROP
+        Spec.registry.append(c)
+        out.append(c)
+    return out
+
+
+c08_clones = _clone_from_c08()
